@@ -84,11 +84,7 @@ def shard_body(rows):
 def taiko_class(r):
     """Known_taiko of DESIGN §6 F6"""
     flags = r["view"]
-    if len(flags) < 3:
-        return "taiko-fewer-than-3-objects"
-    if not (flags[0] and flags[1]):
-        return "taiko-first-two-not-both-hits"
-    if not flags[-1]:
+    if flags and any(flags) and not flags[-1]:
         return "taiko-trailing-non-hit"
     return None
 
@@ -100,28 +96,22 @@ def oracle_c02(r):
     if "vals" not in r:
         return out
     vals, shots = r["vals"], r["oneshot"]
-    cls_t = taiko_class(r) if m == 1 else None
     if r["len0"] != len(vals):
-        cls = cls_t or ("len-one-on-empty" if r["total"] == 0 and r["len0"] == 1 else None)
-        out.append((cls, f"announced len {r['len0']} but produced {len(vals)} values"))
+        out.append((None, f"announced len {r['len0']} but produced {len(vals)} values"))
     for i, v in enumerate(vals):
         if i + 1 >= len(shots):
-            out.append((cls_t, f"gradual produced value #{i + 1} beyond total {r['total']}"))
+            out.append((None, f"gradual produced value #{i + 1} beyond total {r['total']}"))
             break
         if v != shots[i + 1]:
-            cls = cls_t
-            if cls is None and m == 3 and v["f"] == shots[i + 1]["f"] and v["i"][:2] == shots[i + 1]["i"][:2]:
-                cls = "mania-combo-scaled-time-rounding"
-            out.append((cls, f"value #{i + 1} differs from one-shot passed_objects({i + 1}): "
-                             f"gradual={v} oneshot={shots[i + 1]}"))
+            out.append((None, f"value #{i + 1} differs from one-shot passed_objects({i + 1}): "
+                              f"gradual={v} oneshot={shots[i + 1]}"))
             break
     if vals and vals[-1] != r["full"]:
-        cls = cls_t
-        if cls is None and m == 3 and vals[-1]["f"] == r["full"]["f"]:
-            cls = "mania-combo-scaled-time-rounding"
+        # the one recorded finding: a taiko map ending in non-hit objects (F6c)
+        cls = taiko_class(r) if m == 1 else None
         out.append((cls, f"final gradual value differs from the full calculation: {vals[-1]} vs {r['full']}"))
     if not vals and r["total"] > 0:
-        out.append((cls_t, f"no values produced although the map has {r['total']} countable objects"))
+        out.append((None, f"no values produced although the map has {r['total']} countable objects"))
     return out
 
 
@@ -129,7 +119,7 @@ def oracle_c15(r):
     """iterator protocol against the reference list of one-shot values"""
     out = []
     m = r["mode"]
-    cls_t = taiko_class(r) if m == 1 else None
+    cls_t = None
     total = r["total"]
     if "panic_plain" in r:
         out.append((cls_t, "plain iteration panicked: " + r["panic_plain"]))
@@ -140,13 +130,11 @@ def oracle_c15(r):
                 out.append((cls_t, f"len() after {i + 1} next() calls is {l}, expected {r['len0'] - i - 1}"))
                 break
         if r["len0"] != n:
-            cls = cls_t or ("len-one-on-empty" if total == 0 and r["len0"] == 1 else None)
-            out.append((cls, f"len() at creation is {r['len0']} but {n} values follow"))
+            out.append((None, f"len() at creation is {r['len0']} but {n} values follow"))
         if not all(r["after"]):
             out.append((cls_t, "a call after exhaustion returned Some"))
         if r["len_end"] != 0:
-            cls = cls_t or ("len-one-on-empty" if total == 0 and r["len_end"] == 1 else None)
-            out.append((cls, f"len() after exhaustion is {r['len_end']}"))
+            out.append((None, f"len() after exhaustion is {r['len_end']}"))
     # reference: list of values a plain iteration yields == one-shot values 1..total
     ref = r["oneshot"][1:total + 1]
     for s in r.get("seqs", []):
@@ -167,14 +155,7 @@ def oracle_c15(r):
             else:
                 exp = len(ref) - p
             if o != exp:
-                cls = cls_t
-                if cls is None and op[0] == "nth" and exp is None and o is not None:
-                    cls = "nth-clamps-instead-of-exhausting"
-                elif cls is None and op[0] == "len" and total == 0 and o == 1:
-                    cls = "len-one-on-empty"
-                elif cls is None and m == 3 and isinstance(o, dict) and isinstance(exp, dict) \
-                        and o["f"] == exp["f"] and o["i"][:2] == exp["i"][:2]:
-                    cls = "mania-combo-scaled-time-rounding"
+                cls = None
                 out.append((cls, f"op #{k} {op} of {s['ops'][:k + 1]} returned {o}, reference iterator gives {exp}"))
                 break
     return out
